@@ -4,11 +4,12 @@
      nsec <apex> <dnskey 0|1> <name>/<rtype>/<class>/<ttl>/<soa minimum> ..
                                                  => Ok <owner>/<next>/<bitmap>/<ttl>/<class> .. | Err n | Panic
      nsec3 <apex> <dnskey> <alg> <flags> <iters> <salt> <excl 0|1> <s|m|f<ttl>> <name>/<rtype>/<class>/<ttl>/<min> ..
-                                                 => Ok <class> <nsec3param ttl> <hash>/<next>/<bitmap>/<ttl> .. | Err n | Panic
+                                                 => Ok <alg>/<flags>/<iters>/<salt> <param owner>/<class>/<ttl>/<alg>/<flags>/<iters>/<salt> <class> <hash>/<next>/<bitmap>/<ttl> .. | Err n | Panic
      hash <name> <iters> <salt>                  => <hash hex>
      dedup <name>/<rtype>/<u|k>/<rdata> ..       => <name>/<rtype> ..
-     srt <name>/<rtype>/<u|k>/<rdata> ..         => <name>/<rtype>/<rdata> ..   (sort + dedup)
-     label <hash> <apex>                         => Ok <owner name> <decoded first label> *)
+     srt <class>/<name>/<rtype>/<u|k>/<rdata> .. => <class>/<name>/<rtype>/<rdata> ..   (sort + dedup)
+     label <hash> <apex>                         => Ok <owner name> <decoded first label>
+     parse <octets>                              => Ok | Err 10 (short) | Err 11 (bad bitmap)   (RtypeBitmap::from_octets) *)
 let rec labels_of_wire (b : n list) : n list list =
   match b with
   | [] -> failwith "name: no root label"
@@ -63,8 +64,11 @@ let handle = function
                 c_salt = bytes_of_hex salt; c_excl = flag excl } in
       let m = if pm = "s" then PSoa else if pm = "m" then PSoaMin
               else PFixed (n_of_int (int_of_string (String.sub pm 1 (String.length pm - 1)))) in
-      show_outcome (fun o ->
-          string_of_int (int_of_n o.o_class) ^ " " ^ string_of_int (int_of_n o.o_param_ttl) ^ " " ^
+      let ps (((a, f), i), sl) = string_of_int (int_of_n a) ^ "/" ^ string_of_int (int_of_n f) ^ "/" ^
+                                 string_of_int (int_of_n i) ^ "/" ^ hex_of_bytes sl in
+      show_outcome (fun ((o, rp), (((po, pc), pt), pp)) ->
+          ps rp ^ " " ^ hex_of_name po ^ "/" ^ string_of_int (int_of_n pc) ^ "/" ^ string_of_int (int_of_n pt) ^ "/" ^ ps pp ^ " " ^
+          string_of_int (int_of_n o.o_class) ^ " " ^
           show_list (fun (r, ttl) ->
             hex_of_bytes r.h_owner ^ "/" ^ hex_of_bytes r.h_next ^ "/" ^ hex_of_bytes r.h_types ^ "/" ^
             string_of_int (int_of_n ttl)) o.o_recs)
@@ -78,12 +82,13 @@ let handle = function
       show_list (fun (nm, t) -> hex_of_name nm ^ "/" ^ string_of_int (int_of_n t))
         (c13_dedup (List.map srec_of recs))
   | "srt" :: recs ->
-      let srec_of s = match String.split_on_char '/' s with
-        | [nm; t; k; d] -> ((name_of_hex nm, n_of_int (int_of_string t)), (k = "u", bytes_of_hex d))
-        | _ -> failwith "bad srec" in
-      show_list (fun ((nm, t), (_, d)) -> hex_of_name nm ^ "/" ^ string_of_int (int_of_n t) ^ "/" ^ hex_of_bytes d)
-        (c13_sorted_records (List.map srec_of recs))
+      let crec_of s = match String.split_on_char '/' s with
+        | [c; nm; t; k; d] -> (n_of_int (int_of_string c), ((name_of_hex nm, n_of_int (int_of_string t)), (k = "u", bytes_of_hex d)))
+        | _ -> failwith "bad crec" in
+      show_list (fun (c, ((nm, t), (_, d))) -> string_of_int (int_of_n c) ^ "/" ^ hex_of_name nm ^ "/" ^ string_of_int (int_of_n t) ^ "/" ^ hex_of_bytes d)
+        (c13_sorted_records (List.map crec_of recs))
   | ["label"; h; apex] ->
       show_outcome (fun (o, d) -> hex_of_name o ^ " " ^ hex_of_bytes d) (c13_label (bytes_of_hex h) (name_of_hex apex))
+  | ["parse"; d] -> (match c13_bm_parse (bytes_of_hex d) with Ok _ -> "Ok" | Err e -> "Err " ^ string_of_int (int_of_n e) | _ -> "Panic")
   | _ -> failwith "bad case line"
 let () = main handle
